@@ -119,3 +119,29 @@ pub mod entry {
     Txid::load(value)
   }
 }
+
+/// `!inscription.properties().gallery.is_empty()` (what the inscription updater reads).
+pub fn inscription_has_gallery(inscription: &Inscription) -> bool {
+  !inscription.properties().gallery.is_empty()
+}
+
+/// Crate-private `Properties` encoders/decoder and `Inscription::properties` (C28).
+pub mod props {
+  use super::*;
+
+  pub fn from_cbor(cbor: &[u8]) -> Properties {
+    Properties::from_cbor(cbor)
+  }
+
+  pub fn to_inline_cbor(properties: &Properties) -> Option<Vec<u8>> {
+    properties.to_inline_cbor()
+  }
+
+  pub fn to_packed_cbor(properties: &Properties) -> Option<Vec<u8>> {
+    properties.to_packed_cbor()
+  }
+
+  pub fn inscription_properties(inscription: &Inscription) -> Properties {
+    inscription.properties()
+  }
+}
